@@ -195,6 +195,82 @@ def stream_kinds(run, types, thorough):
             run.case(('stream-kinds', name, enc))
 
 
+def sinks_and_overrides(run, types, thorough):
+    """(a) A sink may keep the object it is handed and look at it later (a
+    transport that coalesces writes, a mock): what it was handed must still be
+    the encoding then.  (b) A stream class may override read() (a frame-limited
+    or counting PacketBuffer): the decoder must go through that read()."""
+    from minecraft.networking.packets import PacketBuffer
+    rng = run.rng('sinks')
+
+    class KeepingSink(object):
+        def __init__(self):
+            self.kept = []
+
+        def send(self, data):
+            self.kept.append(data)          # no copy
+
+    for T, name, nominal in types:
+        sink = KeepingSink()
+        values = [rng.getrandbits(rng.randrange(1, 8 * nominal - 3))
+                  for _ in range(60)] + [0, 127, 128, 2 ** 31 - 1]
+        values = [v for v in values if len(ref.encode(v)) <= nominal]
+        for v in values:
+            T.send(v, sink)
+        got = b''.join(bytes(k) for k in sink.kept)
+        exp = b''.join(ref.encode(v) for v in values)
+        run.count('sinks.kept_chunks', len(sink.kept))
+        if got != exp:
+            run.violation('encode/%s/chunk-changed-after-send' % name, 'what a '
+                          'sink was handed by send() no longer holds the '
+                          'encoding when the sink looks at it later (a '
+                          'shared buffer was handed out)', {
+                              'values': values[:6],
+                              'first_chunks': [bytes(k) for k in
+                                               sink.kept[:4]]})
+
+    class CountingBuffer(PacketBuffer):
+        """A buffer that limits reads to the current frame."""
+
+        def __init__(self, limit):
+            PacketBuffer.__init__(self)
+            self.limit, self.taken, self.read_calls = limit, 0, 0
+
+        def read(self, length=None):
+            self.read_calls += 1
+            room = self.limit - self.taken
+            n = room if length is None else min(length, room)
+            out = PacketBuffer.read(self, n) if n > 0 else b''
+            self.taken += len(out)
+            return out
+    for T, name, nominal in types:
+        for v in (300, 2 ** 21 + 5, 2 ** 28 + 1):
+            enc = ref.encode(v)
+            for limit in range(0, len(enc) + 2):
+                buf = CountingBuffer(limit)
+                buf.send(enc + b'\x05')          # next frame starts with 5
+                buf.reset_cursor()
+                try:
+                    got = ('ret', T.read(buf))
+                except EOFError:
+                    got = ('raise', 'EOFError')
+                except Exception as e:
+                    got = ('raise', type(e).__name__)
+                want = ('ret', v) if limit >= len(enc) else ('raise',
+                                                             'EOFError')
+                run.count('overridden_read.decodes')
+                if got != want or buf.taken > limit or (
+                        buf.read_calls == 0 and limit > 0):
+                    run.violation('decode/%s/bypasses-stream-read' % name,
+                                  'the decoder did not go through the '
+                                  'stream\'s own read() (a buffer class that '
+                                  'overrides it)', {
+                                      'value': v, 'frame_limit': limit,
+                                      'got': got, 'expected': want,
+                                      'read_calls': buf.read_calls})
+                    break
+
+
 def second_api_and_reuse(run, types, thorough):
     """(a) `read_with_context`/`send_with_context` are the same codec as
     `read`/`send` (packet definitions go through them); (b) decoding does not
@@ -554,6 +630,8 @@ def run(run):
         run.sample({'negatives_tried': negs[:6]})
     stream_kinds(run, types, thorough)
     second_api_and_reuse(run, types, thorough)
+    if run.shard == 0:
+        sinks_and_overrides(run, types, thorough)
     run.require('stream_kinds.partitions', 200)
     run.require('second_api.decodes', 20)
     run.require('second_api.reads_after_a_truncated_read', 50)
